@@ -32,11 +32,11 @@ package optdec
 //@ pure func asI64val(n Node, ctx *Context) int64 = ite(nType(n) == KUint, int64(nU64(n)), ite(nType(n) == KSint, nI64(n), json.numInt64(nNumber(n, ctx))))
 //@ pure func asU64ok(n Node, ctx *Context) bool = nType(n) == KUint || (nType(n) == KRawNumber && parseU64ok(nRaw(n, ctx)))
 //@ pure func asU64val(n Node, ctx *Context) uint64 = ite(nType(n) == KUint, nU64(n), parseU64val(nRaw(n, ctx)))
-//@ pure func parseU64ok(s string) bool
-//@ pure func parseU64val(s string) uint64
+//@ pure func parseU64ok(s string) bool = strconv.parseUintOk(s, 10, 64)
+//@ pure func parseU64val(s string) uint64 = strconv.parseUintVal(s, 10, 64)
 
-//@ func ParseU64 assumed "strconv-based helper; treated as a function of the text"
-//@   ensures (r1 == nil) == parseU64ok(s) && (r1 == nil ==> r0 == parseU64val(s))
+//@ func ParseU64 props C11,C19
+//@   ensures (r1 == nil) == parseU64ok(raw) && (r1 == nil ==> r0 == parseU64val(raw))
 
 //@ func Node.AsI64 props C11,C19
 //@   ensures r1 <==> asI64ok(self, ctx)
